@@ -1,7 +1,7 @@
 """Population rules (handles, streams): P9a-f P10a-f W7 W9 W10 W13 W14 S5  (DESIGN.md section 4)."""
 import re
 from core import CheckError, short, short_fn
-from engine import has_release, has_acquire
+from engine import has_release, has_acquire, is_const, norm_rel
 from rules_send import FLAVOURS, WRITE_OPS, CAS_OPS, fns_mentioning, constructs, site_key
 
 
@@ -22,25 +22,17 @@ def callers_of(F, regex):
 
 
 def run(ctx):
-    _p9(ctx)
-    _p10(ctx)
-    _w_signal(ctx)
-    _w13_w14(ctx)
-    _s5(ctx)
+    ctx.step(_p9, ctx)
+    ctx.step(_p10, ctx)
+    ctx.step(_w_signal, ctx)
+    ctx.step(_w13_w14, ctx)
+    ctx.step(_s5, ctx)
 
 
 def _eq_const_edges(g, x, pred, const, want_true=True):
-    """edges of switches testing  <atomic event satisfying pred> == const"""
-    out = set()
-    for sid in x.switches():
-        e = g.strip(g.switch_expr(sid))
-        if e[0] == 'bin' and e[1] in ('Eq', 'Ne'):
-            for (p, q) in ((e[2], e[3]), (e[3], e[2])):
-                p, q = g.strip(p), g.strip(q)
-                if p[0] == 'call' and x.rep(p[1]) in x.atoms and pred(x.atoms[x.rep(p[1])]) and q[0] == 'c' and str(q[1]) == str(const):
-                    t = (e[1] == 'Eq') == want_true
-                    out.update(x.switch_edges(sid, 'nonzero' if t else 'zero'))
-    return out
+    """edges of switches testing  <atomic event satisfying pred> == const  (any syntactic form)"""
+    t, f, _h = x.eq_tests(lambda a_, b_: a_[0] == 'call' and x.rep(a_[1]) in x.atoms and pred(x.atoms[x.rep(a_[1])]) and is_const(b_, const))
+    return t if want_true else f
 
 
 def _p9(ctx):
@@ -114,6 +106,9 @@ def _p9(ctx):
             if e[0] == 'call' and re.search(r'(Vec|slice)(::<.*>)?::is_empty$', g.call_name(e[1]) or ''):
                 if any(a.on('ReadCursor.readers') for a in x.loads_in(g.call_args(e[1])[0])):
                     empty_edges.update(x.switch_edges(sid, 'nonzero'))
+        _z, _nz, _h = x.zero_tests(lambda e_: e_[0] == 'call' and bool(re.search(r'(Vec|slice)(::<.*>)?::len$', g.call_name(e_[1]) or '')) and
+                                   any(a.on('ReadCursor.readers') for a in x.loads_in(g.call_args(e_[1])[0])))
+        empty_edges.update(_z)
         okc1 = bool(setr) and bool(empty_edges) and all(x.dom(empty_edges, a.nid) for a in setr)
         okc2 = bool(empty_edges) and all(x.must(e_, {a.nid for a in setr}) for e_ in empty_edges)
         ctx.add('P9c', 'T-GUARD', d, okc1 and okc2, 'the no-reader bit is set exactly on the "stream list is now empty" edge' if okc1 and okc2 else
@@ -227,9 +222,9 @@ def _p10(ctx):
                 pred_ok = False
                 for r_ in rets:
                     for ci in g.nodes[r_].call['closure_insts']:
-                        rv = g.strip(g.ev_local(ci, 0))
-                        if rv[0] == 'bin' and rv[1] == 'Ne':
-                            sides = [g.strip(rv[2]), g.strip(rv[3])]
+                        nr_ = norm_rel(g, g.ev_local(ci, 0))
+                        if nr_ and nr_[0] == 'Eq' and not nr_[3]:
+                            sides = [nr_[1], nr_[2]]
                             if any(any(s[0] == 'hofarg' for s in g.walk(sd)) for sd in sides) and \
                                     any(any(s[0] == 'fld' and s[2] == 'Reader.pos' for s in g.walk(sd)) for sd in sides):
                                 pred_ok = True
@@ -281,14 +276,7 @@ def _p10(ctx):
                         'the removed stream\'s ReaderPos is not retired through the deferred path', sub=sub + '|pos')
                 # e: last_pos
                 sets = [n for n in x.ext_calls(r'Cell(::<.*>)?::set$') if any(p.endswith('ReadCursor.last_pos') for p in g.locpaths(g.call_args(n)[0]))]
-                one = set()
-                for sid in x.switches():
-                    e = g.strip(g.switch_expr(sid))
-                    if e[0] == 'bin' and e[1] == 'Eq':
-                        for (p, q) in ((e[2], e[3]), (e[3], e[2])):
-                            p, q = g.strip(p), g.strip(q)
-                            if p[0] == 'call' and re.search(r'Vec(::<.*>)?::len$', g.call_name(p[1]) or '') and q[0] == 'c' and str(q[1]) == '1':
-                                one.update(x.switch_edges(sid, 'nonzero'))
+                one, _f, _h = x.eq_tests(lambda a_, b_: a_[0] == 'call' and bool(re.search(r'Vec(::<.*>)?::len$', g.call_name(a_[1]) or '')) and is_const(b_, 1))
                 oke = bool(sets) and bool(one) and all(x.dom(one, s_) and x.dom(succ, s_) for s_ in sets) and all(x.must(o_, set(sets)) for o_ in one)
                 okv = all(any(s.on('Reader.pos/ReaderPos.pos_data') for s in x.loads_in(g.call_args(s_)[1])) for s_ in sets)
                 ctx.add('P10e', 'T-GUARD', fn, oke and okv, 'last_pos := position of the removed stream, exactly when the old list had one stream' if oke and okv else
@@ -320,17 +308,15 @@ def _p10(ctx):
     loads = [a for a in x.atoms_on('ReadCursor.readers') if a.op == 'load']
     scans = [a for a in x.atoms_on('ReaderPos.pos_data') if a.op == 'load']
     eq_edges = set()
-    for sid in x.switches():
-        e = g.strip(g.switch_expr(sid))
-        if e[0] == 'bin' and e[1] in ('Eq', 'Ne'):
-            l, r = g.strip(e[2]), g.strip(e[3])
-            if l[0] == 'call' and r[0] == 'call' and x.rep(l[1]) in x.atoms and x.rep(r[1]) in x.atoms and \
-                    x.atoms[x.rep(l[1])].on('ReadCursor.readers') and x.atoms[x.rep(r[1])].on('ReadCursor.readers') and x.rep(l[1]) != x.rep(r[1]):
-                first = [n for n in (x.rep(l[1]), x.rep(r[1])) if any(x.rep(s.nid) == n for a in scans for s in x.loads_in(g.call_args(a.nid)[0]))]
-                second = [n for n in (x.rep(l[1]), x.rep(r[1])) if n not in first]
-                if first and second and scans and all(x.reaches(a.nid, second[0], blocked=set(first)) for a in scans) and \
-                        not any(x.reaches(second[0], a.nid, blocked=set(first)) for a in scans):
-                    eq_edges.update(x.switch_edges(sid, 'nonzero' if e[1] == 'Eq' else 'zero'))
+    for t_ in x.tests(('Eq',)):
+        l, r = t_.a, t_.b
+        if l[0] == 'call' and r[0] == 'call' and x.rep(l[1]) in x.atoms and x.rep(r[1]) in x.atoms and \
+                x.atoms[x.rep(l[1])].on('ReadCursor.readers') and x.atoms[x.rep(r[1])].on('ReadCursor.readers') and x.rep(l[1]) != x.rep(r[1]):
+            first = [n for n in (x.rep(l[1]), x.rep(r[1])) if any(x.rep(s.nid) == n for a in scans for s in x.loads_in(g.call_args(a.nid)[0]))]
+            second = [n for n in (x.rep(l[1]), x.rep(r[1])) if n not in first]
+            if first and second and scans and all(x.reaches(a.nid, second[0], blocked=set(first)) for a in scans) and \
+                    not any(x.reaches(second[0], a.nid, blocked=set(first)) for a in scans):
+                eq_edges.update(t_.true)
     ok = bool(eq_edges) and all(x.dom(eq_edges, ex) for ex in g.exits)
     ctx.add('P10f', 'T-DOM', gmd, ok, 'the scan result is returned only when the list pointer re-loaded after the scan equals the one scanned' if ok else
             'get_max_diff can return a scan of a list that was replaced (and possibly freed) meanwhile', sub='revalidate')
